@@ -32,7 +32,8 @@ def rand_expr(rng, depth, params, macros, labels):
     return G.climb(toks)
 
 
-def gen_case(rng):
+def gen_case(rng, inside_imacro=False):
+    vals = None
     k = rng.randrange(1, 5)
     defs, macros = [], []
     labels = ["la", "lb"]
@@ -51,6 +52,18 @@ def gen_case(rng):
         use = ("macro", name, [rand_expr(rng, 1, [], macros, labels) for _ in range(nparams)])
     prog = [("label", "la"), ("op", "pc", None), ("op", "pc", None), ("label", "lb"), ("op", "jumpdest", None)]
     push = [("op", "push32", use)]
+    if inside_imacro:
+        # the invocation sits in an instruction macro body and its arguments mention the parameters of that
+        # enclosing macro (several arguments, several parameters, the same parameter twice)
+        ips = rng.sample(NAMES + ["p", "q"], rng.randrange(1, 4))
+        name, nparams = rng.choice(macros)
+        use = ("macro", name, [rand_expr(rng, 1, ips, macros, labels) if rng.random() < 0.3 else ("var", rng.choice(ips)) for _ in range(max(nparams, 2))])
+        if rng.random() < 0.3:
+            use = G.climb([("var", rng.choice(ips)), "+", use])
+        args = [rng.choice([("num", rng.choice([0, 1, 5, 300])), ("lbl", rng.choice(labels))]) for _ in ips]
+        defs = defs + [("defi", "im", ips, [("op", "push32", use)])]
+        push = [("macro", "im", args)]
+        vals = {p_: ({"la": 0, "lb": 2}[a[1]] if a[0] == "lbl" else a[1]) for p_, a in zip(ips, args)}
     where = rng.random()
     if where < 0.4:
         prog = defs + prog + push
@@ -59,7 +72,7 @@ def gen_case(rng):
     else:
         rng.shuffle(defs)
         prog = defs[:1] + prog + push + defs[1:]
-    return prog, use, {d[1]: (d[2], d[3]) for d in defs}
+    return prog, use, {d[1]: (d[2], d[3]) for d in defs if d[0] == "defe"}, vals
 
 
 def oracle(c, ans):
@@ -67,7 +80,7 @@ def oracle(c, ans):
     if k in ("panic", "crash"):
         return []
     try:
-        v = G.ref_eval(c["use"], c.get("labels", {"la": 0, "lb": 2}), c["emacros"])
+        v = G.ref_eval(c["use"], c.get("labels", {"la": 0, "lb": 2}), c["emacros"], c.get("vars"))
         want = "ok" if 0 <= v < 2 ** 256 else ("ExpressionNegative" if v < 0 else "ExpressionTooLarge")
     except G.EvalError as e:
         v = None
@@ -94,8 +107,9 @@ def check(run):
     rng = run.rng
     cases = []
     for _ in range(3000 if run.tier == "thorough" else 800):
-        prog, use, emacros = gen_case(rng)
-        cases.append(mk_case(prog, "emacros", use=use, emacros=emacros))
+        inside = rng.random() < 0.25
+        prog, use, emacros, vals = gen_case(rng, inside)
+        cases.append(mk_case(prog, "emacros-in-imacro" if inside else "emacros", use=use, emacros=emacros, vars=vals))
     # fixed corner cases: same-name forwarding, different-name forwarding, recursion
     f = ("defe", "f", ["x"], G.climb([("var", "x"), "+", ("num", 1)]))
     for g in (("defe", "g", ["x"], ("macro", "f", [("var", "x")])), ("defe", "g", ["y"], ("macro", "f", [("var", "y")]))):
@@ -115,5 +129,5 @@ def check(run):
     use = ("macro", "r", [])
     cases.append(mk_case([r, ("op", "push32", use)], "recursive", use=use, emacros={"r": ([], r[3])}))
     return asmfam.run_family(run, "C11", cases, oracle,
-                             "random acyclic sets of 1-4 expression macros reusing the parameter names x,y,a,n; bodies and arguments over parameters, literals, labels, nested invocations (extra/missing arguments); definitions before/after/around the use; distinct = distinct sources",
+                             "random acyclic sets of 1-4 expression macros reusing the parameter names x,y,a,n; bodies and arguments over parameters, literals, labels, nested invocations (extra/missing arguments); definitions before/after/around the use; a quarter of the uses sit in an instruction macro body with arguments over the parameters of that macro; distinct = distinct sources",
                              "expression macro evaluation")
